@@ -176,6 +176,18 @@ def check(prop, tier, seed):
         else:
             ET.ElementTree(extra_edits(ET.parse(small).getroot(), rnd, kind)).write(p)
         jobs.append((gendrv, fixgen, p, tp, "extra-%d:%s" % (i, kind), True, None, True))
+    # duplicate field numbers in all four combinations of plain / enumerated fields
+    for i, (ea, eb) in enumerate(((False, False), (False, True), (True, False), (True, True))):
+        root = ET.parse(small).getroot()
+        fs = list(root.find("fields"))
+        enum = [f for f in fs if f.findall("value") and f.get("type") != "BOOLEAN"]
+        plain = [f for f in fs if not f.findall("value") and f.get("name") not in FRAMING | PIPELINE]
+        a = rnd.choice(enum if ea else plain)
+        b = rnd.choice([f for f in (enum if eb else plain) if f is not a])
+        b.set("number", a.get("number"))
+        p = os.path.join(xdir, "dup-%d.xml" % i)
+        ET.ElementTree(root).write(p)
+        jobs.append((gendrv, fixgen, p, small_t, "dupfield-%s-onto-%s" % ("enum" if eb else "plain", "enum" if ea else "plain"), False, None, False))
     recs, skipped = [], 0
     with concurrent.futures.ThreadPoolExecutor(max_workers=NCPU) as ex:
         for sid, line, err in ex.map(run_one, jobs):
